@@ -70,6 +70,12 @@ func NewTimerWheel[K comparable, V any](size uint) *TimerWheel[K, V] {
 
 func (tw *TimerWheel[K, V]) findIndex(expire int64) (int, int) {
 	duration := expire - tw.nanos
+	if duration <= 0 {
+		// already due (a delayed TTL update can re-schedule such an entry):
+		// use the current slot of the finest wheel so the next tick reclaims it,
+		// instead of a slot that was already passed and is only revisited a rotation later
+		expire = tw.nanos
+	}
 	for i := 0; i < 5; i++ {
 		if duration < int64(tw.spans[i+1]) {
 			ticks := expire >> int(tw.shift[i])
